@@ -10,7 +10,7 @@ FILTER_EXC = {
     ("hwloc_synthetic_insert_attached", "attached->attr.type"): "asserted to be NUMANODE (unfilterable) just above",
     ("hwloc__xml_import_object", "HWLOC_OBJ_TYPE_MAX"): "placeholder type: the real type is read from the attributes and filtered before insertion by hwloc__xml_import_object itself",
     ("hwloc_look_pci", "type"): "type is PCI_DEVICE or BRIDGE, each tested just above (subtype-important / type filter)",
-    ("hwloc_linux_knl_add_cluster", "HWLOC_OBJ_L3CACHE"): "created only when hwdata.mcdram_cache_size > 0, which the KNL quirk zeroes when the cache type is filtered out",
+    ("hwloc_linux_knl_add_cluster", "HWLOC_OBJ_L3CACHE"): "decided separately by evaluation (knl-cache obligations below): created only when hwdata.mcdram_cache_size > 0, which the KNL quirk zeroes when the cache type in use is filtered out",
     ("look_sysfscpu", "HWLOC_OBJ_GROUP"): "clusterset is read only when hwloc_filter_check_keep_object_type(GROUP) holds (line ~5146); NULL otherwise",
     ("look_sysfscpu", "HWLOC_OBJ_DIE"): "dieset is read only when hwloc_filter_check_keep_object_type(DIE) holds; NULL otherwise",
     ("hwloc_linuxfs_pci_look_pcidevices", "type"): "type is PCI_DEVICE or BRIDGE, each tested just above (subtype-important / get_type_filter)",
@@ -24,6 +24,36 @@ def run(chk, tier):
     chk.rule("R-FILTER", "every object creation site is covered by a passed filter check of ITS type (dominating test, follow-up hwloc_filter_check_keep_object, unfilterable type, or all callers checked); the rest are frozen one per line with the reason read from the code")
     n = filt.creation_sites(chk, P, DISC_UNITS, exceptions=FILTER_EXC)
     chk.floor("R-FILTER", "object creation sites", n, 50)
+    # the KNL memory-side cache: created by hwloc_linux_knl_add_cluster() as an L3 (or a MemCache) without a filter test of its own; the quirk
+    # zeroes hwdata.mcdram_cache_size when the type in use is filtered out.  Decided by evaluation in two steps:
+    import peval, guards
+    u = P.unit("topology-linux.c")
+    q = P.need_func("hwloc_linux_knl_numa_quirk", "topology-linux.c")
+    L3, MC = u.enum_consts.get("HWLOC_OBJ_L3CACHE"), u.enum_consts.get("HWLOC_OBJ_MEMCACHE")
+    from prog import src, strip, args
+    guards.unreachable_under(chk, P, "hwloc_linux_knl_add_cluster", "topology-linux.c", [{"knl_hwdata->mcdram_cache_size": 0}], "hwloc_alloc_setup_object",
+                             "R-FILTER", "knl-cache:size0", "with knl_hwdata->mcdram_cache_size == 0 hwloc_linux_knl_add_cluster() creates no cache object (the Group it may create has its own filter test)",
+                             only=lambda c: len(args(c)) > 1 and src(strip(args(c)[1])) != "HWLOC_OBJ_GROUP")
+    # in the quirk: whichever way HWLOC_KNL_MSCACHE_L3 is set, when the filter of the type in use rejects it every call of
+    # hwloc_linux_knl_add_cluster() is made with hwdata.mcdram_cache_size == 0
+    for as_l3, keep in ((1, {L3: 0, MC: 1}), (0, {L3: 1, MC: 0})):
+        seen = set()
+        def obs(nd, env, seen=seen, as_l3=as_l3):
+            if nd["k"] == "Call" and nd.get("fn") == "hwloc_linux_knl_add_cluster":
+                v = env.get("mscache_as_l3")
+                if v is None or bool(v) == bool(as_l3):
+                    seen.add((nd.get("l"), env.get("hwdata.mcdram_cache_size")))
+        try:
+            peval.PathEval(P, q, {}, is_effect=lambda *z: False, through_effects=True, observe=obs, maxstates=200000, split={"mscache_as_l3": (0, 1)},
+                           call_values={"hwloc_filter_check_keep_object_type": (lambda c, a, keep=keep: keep.get(a[1] if len(a) > 1 else None))},
+                           track={"mscache_as_l3", "hwdata.mcdram_cache_size"}).run()
+            bad = sorted((l, v) for l, v in seen if v != 0)
+            chk.need(len(seen) >= 4, "R-FILTER: calls of hwloc_linux_knl_add_cluster() seen by the evaluation of the KNL quirk (%d)" % len(seen))
+            chk.inst("R-FILTER", q, "knl-cache:filtered(as_l3=%d)" % as_l3, not bad, "with the %s filter rejecting the type in use (HWLOC_KNL_MSCACHE_L3 %s) every call of hwloc_linux_knl_add_cluster() is made with "
+                     "hwdata.mcdram_cache_size == 0 (%d call sites evaluated%s)" % ("L3Cache" if as_l3 else "MemCache", "non-zero" if as_l3 else "zero", len(set(l for l, _ in seen)),
+                                                                                  "; not so at line %s where it is %s" % bad[0] if bad else ""))
+        except AnalysisBroken as ex:
+            chk.broke("R-FILTER: hwloc_linux_knl_numa_quirk not evaluable (%s)" % ex)
     chk.rule("R-NULLELEM", "an array element that is tested for NULL somewhere in a function is not dereferenced unguarded elsewhere in it (missing files leave holes in node arrays)")
     ne = filt.null_elements(chk, P, ["topology-linux.c", "topology-x86.c"])
     chk.floor("R-NULLELEM", "tested-element dereferences", ne, 2)
